@@ -393,6 +393,10 @@ def run_trees(c):
     return {"nontrivial": depth(c["t"]) >= 2, "labels": labels}
 
   def same(p, q, law):
+    e, ne = (p == q), (p != q)
+    if e == ne or (e and hash(p) != hash(q)):
+      raise Violation("%s: the two sides compare == %r, != %r, hashes %s for a=%r b=%r c=%r"
+                      % (law, e, ne, "equal" if hash(p) == hash(q) else "different", c["t"], c["u"], c["v"]))
     if not rf_of(p).same(rf_of(q)):
       raise Violation("%s fails: (%r)/(%r) vs (%r)/(%r) for a=%r b=%r c=%r"
                       % (law, rf_of(p).n, rf_of(p).d, rf_of(q).n, rf_of(q).d, c["t"], c["u"], c["v"]))
@@ -428,7 +432,8 @@ def strat_eq(tier):
     f=filt_st(), g=filt_st(),
     rel=st.sampled_from(["same", "same", "same num", "same den", "independent", "scaled"]),
     s1=st.sampled_from(["int", "float", "fraction"]), s2=st.sampled_from(["int", "float", "fraction"]),
-    r1=st.sampled_from(["list", "dict", "zexpr", "linear"]), r2=st.sampled_from(["list", "dict", "zexpr", "linear", "copy"])))
+    r1=st.sampled_from(["list", "dict", "zexpr", "linear", "dict_rev"]),
+    r2=st.sampled_from(["list", "dict", "zexpr", "linear", "copy", "dict_rev", "zexpr_rev", "sum_rev"])))
 
 
 def build(ba, sp, route):
@@ -436,6 +441,16 @@ def build(ba, sp, route):
   a = [spell(v, sp) for v in ba[1]]
   if route == "dict":
     return ZFilter(dict(enumerate(b)), dict(enumerate(a)))
+  if route == "dict_rev":    # same terms, inserted in the opposite order
+    return ZFilter(dict(reversed(list(enumerate(b)))), dict(reversed(list(enumerate(a)))))
+  if route == "zexpr_rev":
+    return sum((v * z ** -k for k, v in reversed(list(enumerate(b)))), ZFilter(0)) / \
+      sum((v * z ** -k for k, v in reversed(list(enumerate(a)))), ZFilter(0))
+  if route == "sum_rev":     # numerator assembled as a sum of one-term filters, highest delay first
+    num = ZFilter(0)
+    for k, v in reversed(list(enumerate(b))):
+      num = ZFilter({k: v}) + num if k % 2 else num + ZFilter({k: v})
+    return num / ZFilter(a)
   if route == "zexpr":
     return sum((v * z ** -k for k, v in enumerate(b)), ZFilter(0)) / sum((v * z ** -k for k, v in enumerate(a)), ZFilter(0))
   if route == "linear":
